@@ -91,6 +91,9 @@ def _do_transfer(  # noqa: C901
         logger.debug("transfer dir: %s with %d files", dir_hash, len(bound_file_ids))
 
         dir_fails = _add(src, dest, bound_file_ids, **kwargs)
+        # files shared with a previously processed dir are not bound to this
+        # one, but this dir is still incomplete if any of them failed
+        dir_fails.update(entry_ids & failed_ids)
         if dir_fails:
             logger.debug(
                 "failed to upload full contents of '%s', aborting .dir file upload",
